@@ -961,6 +961,17 @@ func runC07(w *World, r *Report) {
 	}
 	r.check(okPrev, "under-ledger-lock", "truncate/previous-checkpoint-first", w.Pos(fn.Pos()), "the stored checkpoint seeds the funds map before vertices are accumulated", "forEachfundFromStorage(fm.set) does not dominate the funds walk")
 
+	// the other side of the exclusion: whoever reads the checkpointed funds holds the ledger lock, so that
+	// the checkpoint it sees and the DAG it walks belong to the same side of a truncation
+	r.rule("checkpoint-read-under-lock", "every read of the checkpointed funds happens with AccountingBook.mux held (either mode): checkpoint and live DAG are read as one snapshot", 2)
+	for _, cfn := range w.RepoFuncs("accountant") {
+		for _, c := range callsTo(cfn, cn("accountant", "*AccountingBook", "readAddressFundsFromStorage"), cn("accountant", "*AccountingBook", "forEachfundFromStorage")) {
+			held := li.At(c)
+			r.check(held.Has(abMux, ""), "checkpoint-read-under-lock", strings.TrimPrefix(shortFn(cfn), "(*accountant.AccountingBook).")+"/"+shortCallee(c), lineOf(w, c),
+				"checkpoint read under the ledger lock", "lockset "+held.String()+": a truncation can replace the checkpoint between this read and the walk of the DAG")
+		}
+	}
+
 	r.rule("checkpoint-writes-every-address", "saveToStorage writes a record for every address of the funds map: no iteration skips the write (a skipped write leaves the previous checkpoint's stale record in place)", 1)
 	if sf := w.fx(r, "accountant", "fundsMemMap", "saveToStorage"); sf != nil {
 		sfn := sf.fn
